@@ -32,6 +32,7 @@ int vk_wait_limit;
 int vk_nwait;
 void (*vk_block_hook)(int (*ready)(void *), void *ctx, long long deadline);
 void (*vk_yield_hook)(void);
+int vk_yield_after_kick;
 const char *mt_schedule;
 int mt_active;
 
